@@ -45,8 +45,11 @@ def make_solution(ps, P, shape):
                 ts.assigned_resources = ["w"]
                 rs.assignments.append((ts.name, s, e))
         else:
-            # an optional task left out: the library's conventional point -task_number
-            ts.start, ts.end, ts.duration = -(i + 1), -(i + 1), 0
+            # an optional task left out: parked at a negative instant; build_solution still reports the declared
+            # duration of a fixed-duration task
+            d = P.int(f"d{i+1}")
+            P.assume(d >= 1)
+            ts.start, ts.end, ts.duration = -(i + 2), -(i + 2), (d if kind == "F" else 0)
             ts.optional = True
             ts.scheduled = False
         sol.add_task_solution(ts)
